@@ -13,8 +13,25 @@
 From Coq Require Import List Arith Bool Lia.
 From LMBase Require Import Res ListX.
 From LMStripe Require Import StripeModel NetModel GenStripeNet StripeAvx2 StripeSpec
-  StripeProofs NetProofs Avx2Proofs HistoryProofs.
+  StripeProofs SpecProofs NetProofs Avx2Proofs HistoryProofs.
 Import ListNotations.
+
+(* ---------- the closed form is the wording of the property ---------- *)
+
+(* Striped <-> "symbol i sits at row i mod R, column i div R, every other cell holds
+   the wildcard, look-ahead row k = row k shifted left by one column" *)
+Theorem C04_striped_iff_placement : forall K C (s : list nat) (st : sseq),
+  0 < C -> (Striped K C s st <-> Placed K C s st).
+Proof.
+  intros K C s st HC. split.
+  - exact (Striped_Placed K C s st HC).
+  - exact (Placed_Striped K C s st HC).
+Qed.
+
+(* R = seq_rows C L is ceil(L/C): the least row count whose R*C cells hold L symbols *)
+Theorem C04_rows_ceil : forall C L, 0 < C ->
+  L <= seq_rows C L * C /\ (0 < L -> (seq_rows C L - 1) * C < L).
+Proof. exact seq_rows_ceil. Qed.
 
 (* ---------- generic striping ---------- *)
 
@@ -142,6 +159,12 @@ Theorem C04_index_spec : forall K C (s : list nat) (st : sseq) (i : nat),
   (seq_rows C (length s) * C <= i -> exists site, s_index K C st i = Panic site).
 Proof. exact s_index_spec. Qed.
 
+(* lossless: the striped form determines the sequence (two sequences with the same
+   striped form are equal), because indexing gives every symbol back *)
+Theorem C04_lossless : forall K C (s s' : list nat) (st : sseq),
+  0 < C -> Striped K C s st -> Striped K C s' st -> s = s'.
+Proof. exact Striped_lossless. Qed.
+
 (* count_symbols / count_symbol = those of the linear sequence *)
 Theorem C04_count_symbols_spec : forall K C (s : list nat) (st : sseq),
   0 < C -> Striped K C s st -> Forall (fun y => y < K) s ->
@@ -183,6 +206,15 @@ Proof.
   intros K C s st. split.
   - exact (check_striped_sound_lemma K C s st).
   - exact (check_striped_complete_lemma K C s st).
+Qed.
+
+(* the state part of check_C04 is the fast check: sound and complete *)
+Theorem C04_check_fast_iff : forall K C (s : list nat) (st : sseq),
+  0 < C -> (check_striped_fast K C s st = true <-> Striped K C s st).
+Proof.
+  intros K C s st HC. split.
+  - exact (check_fast_sound K C s st HC).
+  - exact (check_fast_complete K C s st HC).
 Qed.
 
 (* the property in executable form: after any history the model's own observation
@@ -231,6 +263,8 @@ Check C04_count_symbols_spec : forall K C (s : list nat) (st : sseq),
   count_symbols K C st = Ok (lin_counts K s) /\ forall x, count_symbol K C st x = Ok (lin_count s x).
 Check C04_check_sound : forall K C (s : list nat) (ob : obs),
   0 < C -> check_C04 K C s ob = true -> Holds_C04 K C s ob.
+Check C04_striped_iff_placement : forall K C (s : list nat) (st : sseq),
+  0 < C -> (Striped K C s st <-> Placed K C s st).
 
 (* ---------- non-vacuity ---------- *)
 
@@ -273,16 +307,20 @@ Definition ex_long : list nat := map (fun i => (i * i + i / 7) mod 5) (seq 0 105
 Definition ex_stale : sseq := mkS (repeat (repeat 2 32) 40) 1280 3.
 
 Example ex_avx2_block_runs :
-  match block_loop 33 ex_long 33 0 (m_resize 5 32 (mat ex_stale) 33) with
+  match block_loop 33 ex_long 33 0 0 0 (m_resize 5 32 (mat ex_stale) 33) with
   | Ok (i, _) => i = 32
   | _ => False
   end.
 Proof. vm_compute. reflexivity. Qed.
 
+(* (kept small: coqchk re-checks vm_compute proofs with the lazy machine) the AVX2
+   kernel on a short sequence (scalar tail rows only) into the stale buffer *)
+Definition ex_short : list nat := map (fun i => (i * i + i / 7) mod 5) (seq 0 40).
+
 Example ex_avx2_eq_generic_computed :
-  stripe_into_avx2 5 ex_long ex_stale = stripe_into_generic 5 32 ex_long ex_stale /\
-  match stripe_into_avx2 5 ex_long ex_stale with
-  | Ok st => check_C04 5 32 ex_long (observe 5 32 st [0; 1055; 1056]) = true
+  stripe_into_avx2 5 ex_short ex_stale = stripe_into_generic 5 32 ex_short ex_stale /\
+  match stripe_into_avx2 5 ex_short ex_stale with
+  | Ok st => check_C04 5 32 ex_short (observe 5 32 st [0; 39; 40; 63; 64]) = true
   | _ => False
   end.
 Proof. vm_compute. split; reflexivity. Qed.
@@ -294,8 +332,12 @@ Proof. split; reflexivity. Qed.
 
 (* the checker rejects a wrong wildcard fill, a misplaced symbol and a wrong count *)
 Example ex_check_rejects :
+  check_striped_fast 5 4 ex_s (mkS [[0; 2; 0; 4]; [1; 3; 1; 0]] 6 0) = false /\
+  check_striped_fast 5 4 ex_s (mkS [[0; 2; 0; 4]; [1; 3; 1; 4]; [2; 0; 4; 0]] 6 1) = false /\
+  check_striped_fast 5 4 ex_s (mkS [[0; 2; 0; 4]; [1; 3; 1; 4]; [2; 0; 4; 4]] 6 1) = true /\
   check_striped 5 4 ex_s (mkS [[0; 2; 0; 4]; [1; 3; 1; 0]] 6 0) = false /\
   check_striped 5 4 ex_s (mkS [[0; 1; 2; 3]; [0; 1; 4; 4]] 6 0) = false /\
-  check_C04 5 4 ex_s (mkObs ex_st [] (Ok [2; 2; 1; 1; 1]) (Ok [2; 2; 1; 1; 0]) true) = false /\
-  check_C04 5 4 ex_s (mkObs ex_st [(5, Ok 1); (6, Ok 4)] (Ok [2; 2; 1; 1; 0]) (Ok [2; 2; 1; 1; 0]) true) = true.
+  check_C04 5 4 ex_s (mkObs ex_st [] (Ok ex_s) (Ok [2; 2; 1; 1; 1]) (Ok [2; 2; 1; 1; 0]) true) = false /\
+  check_C04 5 4 ex_s (mkObs ex_st [] (Ok [0; 1; 2; 3; 0; 4]) (Ok [2; 2; 1; 1; 0]) (Ok [2; 2; 1; 1; 0]) true) = false /\
+  check_C04 5 4 ex_s (mkObs ex_st [(5, Ok 1); (6, Ok 4)] (Ok ex_s) (Ok [2; 2; 1; 1; 0]) (Ok [2; 2; 1; 1; 0]) true) = true.
 Proof. vm_compute. repeat split; reflexivity. Qed.
